@@ -22,9 +22,9 @@ theorem class_table : allTable.all classOK = true := by decide +kernel
 /-- **C13_class**: every PDU a builder returns is the NGAP-PDU alternative (initiating message / successful outcome /
     unsuccessful outcome) and carries the procedure code that TS 38.413 clause 9.4.3 / 9.4.7 give for its message. -/
 theorem C13_class (E : Ext) (t : Template) (ht : t ∈ allTable) (plmn : Bytes) (args : List Val) (pdu : Val)
-    (h : build E t plmn args = .ok pdu) :
+    (h : Shaped E t plmn args pdu) :
     pduPresent pdu = some ((msgClass t.message).index + 1) ∧ pduProc pdu = some (procCode t.message : Int) := by
-  obtain ⟨tm, htm, _, hp⟩ := build_ok_skeleton E t plmn args pdu h
+  obtain ⟨tm, htm, hp⟩ := h
   have hT := List.all_eq_true.mp class_table t ht
   have hS := List.all_eq_true.mp hT tm htm
   simp only [Bool.and_eq_true, decide_eq_true_eq] at hS
@@ -38,9 +38,9 @@ theorem mandatory_table : allTable.all mandOK = true := by decide +kernel
     presence M is in the PDU the builder returns, with the criticality the standard assigns. `hs` is the list of
     (IE id, criticality) of ALL IEs of the PDU, in order. -/
 theorem C13_mandatory (E : Ext) (t : Template) (ht : t ∈ allTable) (ms : List (Nat × Nat)) (hm : mandatory t.message = some ms)
-    (plmn : Bytes) (args : List Val) (pdu : Val) (h : build E t plmn args = .ok pdu) :
+    (plmn : Bytes) (args : List Val) (pdu : Val) (h : Shaped E t plmn args pdu) :
     ∃ hs : List (Int × Nat), headers pdu = some (hs.map some) ∧ ∀ m ∈ ms, ((m.1 : Int), m.2) ∈ hs := by
-  obtain ⟨tm, htm, _, hp⟩ := build_ok_skeleton E t plmn args pdu h
+  obtain ⟨tm, htm, hp⟩ := h
   have hT := List.all_eq_true.mp mandatory_table t ht
   unfold mandOK at hT
   rw [hm] at hT
@@ -81,9 +81,9 @@ theorem effEnv_arg (t : Template) (plmn : Bytes) (args : List Val) (i : Nat) (a 
 /-- **C13_carries (AMF-UE-NGAP-ID)**: a builder that takes an AMF-UE-NGAP-ID returns a PDU with exactly one
     AMF UE NGAP ID IE (Source AMF UE NGAP ID in PATH SWITCH REQUEST) whose value is the argument. -/
 theorem C13_carries_amf (E : Ext) (t : Template) (ht : t ∈ allTable) (i : Nat) (hi : roleIdx t .amf = some i)
-    (plmn : Bytes) (args : List Val) (pdu : Val) (h : build E t plmn args = .ok pdu) (a : Val) (ha : args[i]? = some a) :
+    (plmn : Bytes) (args : List Val) (pdu : Val) (h : Shaped E t plmn args pdu) (a : Val) (ha : args[i]? = some a) :
     ∃ v, ieValuesById pdu (amfIe t.message : Int) = some [some v] ∧ Val.at [0] v = some a := by
-  obtain ⟨tm, htm, _, hp⟩ := build_ok_skeleton E t plmn args pdu h
+  obtain ⟨tm, htm, hp⟩ := h
   have hT := List.all_eq_true.mp amf_table t ht
   unfold amfOK at hT
   rw [hi] at hT
@@ -94,9 +94,9 @@ theorem C13_carries_amf (E : Ext) (t : Template) (ht : t ∈ allTable) (i : Nat)
 
 /-- **C13_carries (RAN-UE-NGAP-ID)** -/
 theorem C13_carries_ran (E : Ext) (t : Template) (ht : t ∈ allTable) (i : Nat) (hi : roleIdx t .ran = some i)
-    (plmn : Bytes) (args : List Val) (pdu : Val) (h : build E t plmn args = .ok pdu) (a : Val) (ha : args[i]? = some a) :
+    (plmn : Bytes) (args : List Val) (pdu : Val) (h : Shaped E t plmn args pdu) (a : Val) (ha : args[i]? = some a) :
     ∃ v, ieValuesById pdu (ieRANUENGAPID : Int) = some [some v] ∧ Val.at [0] v = some a := by
-  obtain ⟨tm, htm, _, hp⟩ := build_ok_skeleton E t plmn args pdu h
+  obtain ⟨tm, htm, hp⟩ := h
   have hT := List.all_eq_true.mp ran_table t ht
   unfold ranOK at hT
   rw [hi] at hT
@@ -109,10 +109,10 @@ theorem C13_carries_ran (E : Ext) (t : Template) (ht : t ∈ allTable) (i : Nat)
     only a builder whose control flow tests the argument (`i ∈ t.dims`: PDU SESSION RESOURCE RELEASE COMMAND, `if nasPdu != nil`)
     may leave the IE out instead. -/
 theorem C13_carries_nas (E : Ext) (t : Template) (ht : t ∈ allTable) (i : Nat) (hi : roleIdx t .nas = some i)
-    (plmn : Bytes) (args : List Val) (pdu : Val) (h : build E t plmn args = .ok pdu) (a : Val) (ha : args[i]? = some a) :
+    (plmn : Bytes) (args : List Val) (pdu : Val) (h : Shaped E t plmn args pdu) (a : Val) (ha : args[i]? = some a) :
     (∃ v, ieValuesById pdu (ieNASPDU : Int) = some [some v] ∧ Val.at [0] v = some (.octs (bytesOf a))) ∨
     (i ∈ t.dims ∧ ieValuesById pdu (ieNASPDU : Int) = some []) := by
-  obtain ⟨tm, htm, _, hp⟩ := build_ok_skeleton E t plmn args pdu h
+  obtain ⟨tm, htm, hp⟩ := h
   have hT := List.all_eq_true.mp nas_table t ht
   unfold nasOK at hT
   rw [hi] at hT
@@ -127,9 +127,9 @@ theorem C13_carries_nas (E : Ext) (t : Template) (ht : t ∈ allTable) (i : Nat)
 /-- **C13_carries (PDU session id)**: the first item of the setup / released list of the response starts with the
     PDU Session ID the caller gave (`Val.at [0,0,0,0]`: list container → list → item 0 → PDUSessionID → value). -/
 theorem C13_carries_psi (E : Ext) (t : Template) (ht : t ∈ allTable) (i : Nat) (hi : roleIdx t .psi = some i)
-    (plmn : Bytes) (args : List Val) (pdu : Val) (h : build E t plmn args = .ok pdu) (a : Val) (ha : args[i]? = some a) :
+    (plmn : Bytes) (args : List Val) (pdu : Val) (h : Shaped E t plmn args pdu) (a : Val) (ha : args[i]? = some a) :
     ∃ id v, psiItemIe t.message = some id ∧ ieValuesById pdu (id : Int) = some [some v] ∧ Val.at [0, 0, 0, 0] v = some a := by
-  obtain ⟨tm, htm, _, hp⟩ := build_ok_skeleton E t plmn args pdu h
+  obtain ⟨tm, htm, hp⟩ := h
   have hT := List.all_eq_true.mp psi_table t ht
   unfold psiOK at hT
   rw [hi] at hT
@@ -144,9 +144,9 @@ theorem C13_carries_psi (E : Ext) (t : Template) (ht : t ∈ allTable) (i : Nat)
 
 /-- **C13_carries (RAN node name)** (the NG Setup wrapper) -/
 theorem C13_carries_name (E : Ext) (t : Template) (ht : t ∈ allTable) (i : Nat) (hi : roleIdx t .name = some i)
-    (plmn : Bytes) (args : List Val) (pdu : Val) (h : build E t plmn args = .ok pdu) (a : Val) (ha : args[i]? = some a) :
+    (plmn : Bytes) (args : List Val) (pdu : Val) (h : Shaped E t plmn args pdu) (a : Val) (ha : args[i]? = some a) :
     ∃ v, ieValuesById pdu (ieRANNodeName : Int) = some [some v] ∧ Val.at [0] v = some a := by
-  obtain ⟨tm, htm, _, hp⟩ := build_ok_skeleton E t plmn args pdu h
+  obtain ⟨tm, htm, hp⟩ := h
   have hT := List.all_eq_true.mp name_table t ht
   unfold nameOK at hT
   rw [hi] at hT
@@ -202,11 +202,11 @@ theorem C13_carries_psilist (E : Ext) (t : Template) (ht : t ∈ allTable) (i : 
     caller gave (`Val.at [1,0,1,1,0]`: GlobalGNBID alternative → GNBID field → gNB-ID alternative → BIT STRING). -/
 theorem C13_carries_gnbid_ngsetup (E : Ext) (t : Template) (ht : t ∈ allTable) (i j : Nat)
     (hi : roleIdx t .gnbid = some i) (hj : roleIdx t .bitlen = some j)
-    (plmn : Bytes) (args : List Val) (pdu : Val) (h : build E t plmn args = .ok pdu)
+    (plmn : Bytes) (args : List Val) (pdu : Val) (h : Shaped E t plmn args pdu)
     (g bl : Val) (hg : args[i]? = some g) (hb : args[j]? = some bl) :
     ∃ v, ieValuesById pdu (ieGlobalRANNodeID : Int) = some [some v] ∧
       Val.at [1, 0, 1, 1, 0] v = some (.bits (bytesOf g) (natOf bl)) := by
-  obtain ⟨tm, htm, _, hp⟩ := build_ok_skeleton E t plmn args pdu h
+  obtain ⟨tm, htm, hp⟩ := h
   have hT := List.all_eq_true.mp gnb_table t ht
   unfold gnbOK at hT
   rw [hi, hj] at hT
@@ -278,5 +278,41 @@ theorem ip4_hole (E : Ext) (plmn : Bytes) (args : List Val) (i : Nat) (s : Bytes
 
 set_option maxRecDepth 1000000 in
 theorem plmn_table : allTable.all plmnOK = true := by decide +kernel
+
+
+/-- the PLMN a builder reads from `TestPlmn`: the one this very call announces (`BuildNGSetupRequest(mobilePLMN)` assigns
+    `TestPlmn` first), otherwise the state left by the last NG Setup -/
+def effPlmn (t : Template) (plmn : Bytes) (args : List Val) : Bytes := (effEnv t plmn args).plmn
+
+/-- **C13_plmn**: the PDU a builder returns is the evaluation of a skeleton `tm` of its template in which EVERY position
+    whose schema type is `PLMNIdentity` (`sitesOf`: traversal of the skeleton directed by the regenerated NGAP schema,
+    entering nested transfer containers with their own type, not entering caller-supplied values) holds `TestPlmn`;
+    for the positions outside nested encodings this is a statement about the returned value itself:
+    `Val.at position pdu = PLMNIdentity{TestPlmn}`. -/
+theorem C13_plmn (E : Ext) (t : Template) (ht : t ∈ allTable) (plmn : Bytes) (args : List Val) (pdu : Val)
+    (h : Shaped E t plmn args pdu) :
+    ∃ tm ∈ skeletons t, pdu = eval E (effEnv t plmn args) .nil tm ∧
+      ∀ site ∈ sitesOf tm,
+        eval E (effEnv t plmn args) .nil site.2.2 = .struct [.octs (effPlmn t plmn args)] ∧
+        (site.2.1 = false → Val.at site.1 pdu = some (.struct [.octs (effPlmn t plmn args)])) := by
+  obtain ⟨tm, htm, hp⟩ := h
+  have hT := List.all_eq_true.mp plmn_table t ht
+  have hS := List.all_eq_true.mp hT tm htm
+  refine ⟨tm, htm, hp, ?_⟩
+  intro site hsite
+  have hs := List.all_eq_true.mp hS site hsite
+  simp only [Bool.and_eq_true, Bool.or_eq_true] at hs
+  refine ⟨isPlmnT_eval E _ _ _ hs.1, ?_⟩
+  intro hn
+  rcases hs.2 with hnn | hat
+  · rw [hn] at hnn; simp at hnn
+  · cases hq : Tm.at site.1 tm with
+    | none => simp [hq] at hat
+    | some s' =>
+      simp only [hq] at hat
+      subst hp
+      rw [eval_at E _ _ site.1 tm s' hq]
+      rw [isPlmnT_eval E _ _ s' hat]
+      rfl
 
 end Stgutg.Props.C13
